@@ -269,7 +269,10 @@ func collect[T any](seq ociregistry.Seq[T]) (items []any, n int) {
 // argVariants: how the non-repository arguments of a call are chosen. "plain" derives them all
 // from the salt; the others put the values an implementation is tempted to special-case (zero,
 // empty, negative, "whole blob", "same repository") in the numeric and string parameters.
-var argVariants = []string{"plain", "zero-empty", "negative", "whole-or-same"}
+var argVariants = []string{"plain", "zero-empty", "negative", "whole-or-same", "independent"}
+
+// in the "independent" variant every argument draws its own class (of the four above) from a hash of
+// (call number, method, argument position), so that all combinations of classes across arguments occur
 
 func invoke(f *ociregistry.Funcs, m int, ctx context.Context, salt, variant int) result {
 	repo := fmt.Sprintf("repo/%d/%d", m, salt)
@@ -281,9 +284,21 @@ func invoke(f *ociregistry.Funcs, m int, ctx context.Context, salt, variant int)
 	dig := ociregistry.Digest(fmt.Sprintf("sha256:%064x", salt+77))
 	tag := fmt.Sprintf("tag%d", salt)
 	// pick(plain, zero-empty, negative, whole-or-same)
-	pickI := func(v ...int64) int64 { return v[variant] }
-	pickS := func(v ...string) string { return v[variant] }
-	if variant == 1 {
+	argPos := 0
+	class := func() int {
+		if variant < 4 {
+			return variant
+		}
+		argPos++
+		h := uint32(salt)*2654435761 ^ uint32(m)*40503 ^ uint32(argPos)*2246822519
+		h ^= h >> 15
+		h *= 2246822519
+		h ^= h >> 13
+		return int(h % 4)
+	}
+	pickI := func(v ...int64) int64 { return v[class()] }
+	pickS := func(v ...string) string { return v[class()] }
+	if class() == 1 {
 		tag = ""
 	}
 	switch m {
@@ -330,11 +345,14 @@ func invoke(f *ociregistry.Funcs, m int, ctx context.Context, salt, variant int)
 		d, err := f.MountBlob(ctx, from, repo, dig)
 		return result{args: []any{from, repo, dig}, repoArg: repo, vals: []any{d}, err: err}
 	case 11:
-		contents := []byte(fmt.Sprintf("{%d}", salt))
+		// contents are opaque bytes to the table, also when they are a manifest that says what it is
+		contents := [][]byte{
+			[]byte(fmt.Sprintf("{%d}", salt)),
+			nil,
+			[]byte(fmt.Sprintf(`{"schemaVersion":2,"mediaType":"application/vnd.oci.image.manifest.v1+json","config":{"mediaType":"application/vnd.oci.image.config.v1+json","digest":"sha256:%064x","size":2},"layers":[]}`, salt)),
+			[]byte(fmt.Sprintf(`{"schemaVersion":2,"mediaType":"application/vnd.oci.image.index.v1+json","manifests":[],"annotations":{"n":"%d"}}`, salt)),
+		}[class()]
 		mt := pickS("mt/x", "", "mt/x", "application/vnd.oci.image.manifest.v1+json")
-		if variant == 1 {
-			contents = nil
-		}
 		d, err := f.PushManifest(ctx, repo, tag, contents, mt)
 		return result{args: []any{repo, tag, contents, mt}, repoArg: repo, vals: []any{d}, err: err}
 	case 12:
